@@ -50,7 +50,23 @@ def unsolicited_pubrel(events, v):
     return any(e["e"] == "c_pkt" and e.get("type") == "PUBCOMP" and e.get("pid") == last["pid"] and e.get("c") != last["c"] for e in ev)
 
 
-PREDICATES = {f.__name__: f for f in (cancelled_publish_aborted_after_reconnect, quota_corrupted_earlier, unsolicited_pubrel)}
+def inbound_ack_write_failed_after_delivery(events, v):
+    """F5/F10: before the violation, a client write carrying an acknowledgement of a broker PUBLISH (PUBACK, PUBREC or
+    PUBCOMP) completed with an error although that acknowledgement had reached the broker.  publish_rec_op abandons
+    the exchange on any write error, the broker considers the step done: the message is never handed to the
+    application / the retransmitted PUBREL finds no waiter."""
+    ev = _before(events, v["n"] + 1)
+    failed = {(e["c"], e["w"]) for e in ev if e["e"] == "c_write_end" and e.get("ec") != "ok"}
+    if not failed: return False
+    for p in ev:
+        if p["e"] == "c_pkt" and (p["c"], p["w"]) in failed and p.get("type") in ("PUBACK", "PUBREC", "PUBCOMP"):
+            if any(r["e"] == "b_recv" and r.get("c") == p["c"] and r.get("type") == p["type"] and r.get("pid") == p["pid"] and r["n"] > p["n"] for r in ev):
+                return True
+    return False
+
+
+PREDICATES = {f.__name__: f for f in (cancelled_publish_aborted_after_reconnect, quota_corrupted_earlier, unsolicited_pubrel,
+                                         inbound_ack_write_failed_after_delivery)}
 
 
 def match(finding, events, v):
